@@ -29,7 +29,7 @@ class Untranslatable(Exception):
 TOK = re.compile(r"""
  (?P<ws>\s+)
 |(?P<num>0x[0-9a-fA-F_]+|0b[01_]+|\d[\d_]*(?:\.\d[\d_]*)?)(?P<suf>_?(?:[iu](?:8|16|32|64|128|size)|f32|f64))?
-|(?P<id>[A-Za-z_][A-Za-z0-9_]*)
+|(?P<id>(?:r\#)?[A-Za-z_][A-Za-z0-9_]*)
 |(?P<str>"(?:[^"\\]|\\.)*")
 |(?P<op>\.\.=|\.\.|::|->|=>|==|!=|<=|>=|&&|\|\||<<=|>>=|<<|>>|\+=|-=|\*=|/=|%=|&=|\|=|\^=|[-+*/%&|^!<>=.,;:()\[\]{}\#?'])
 """, re.X)
@@ -74,7 +74,8 @@ def tokenize(s):
         if m.group("num") is not None:
             toks.append(("num", m.group("num"), (m.group("suf") or "").lstrip("_")))
         elif m.group("id") is not None:
-            toks.append(("id", m.group("id")))
+            name = m.group("id")
+            toks.append(("id", name[2:] + "_" if name.startswith("r#") else name))
         elif m.group("str") is not None:
             toks.append(("str", m.group("str")))
         else:
@@ -92,6 +93,7 @@ KNOWN_MACROS = {"debug_assert", "assert", "unreachable", "matches", "debug_asser
 class Parser:
     def __init__(self, toks):
         self.t, self.i = toks, 0
+        self.no_struct = 0
 
     def peek(self, k=0):
         return self.t[self.i + k] if self.i + k < len(self.t) else ("eof", "")
@@ -160,11 +162,15 @@ class Parser:
         if self.at("<"):
             self.next()
             args = []
-            while not self.at(">"):
+            while not self.at(">") and not self.at(">>"):
                 args.append(self.ty())
                 if self.at(","):
                     self.next()
-            self.expect(">")
+            if self.at(">>"):
+                self.t = list(self.t)
+                self.t[self.i] = ("op", ">")       # `>>` closes two generic argument lists
+            else:
+                self.expect(">")
             return ("gen", name, args)
         return name
 
@@ -296,16 +302,18 @@ class Parser:
                 if p[0] == "num":
                     e = ("field", e, p[1])
                 elif p[0] == "id":
+                    fish = None
                     if self.at("::"):      # turbofish
                         self.next(); self.expect("<")
+                        fish = []
                         while not self.at(">"):
-                            self.ty()
+                            fish.append(self.ty())
                             if self.at(","):
                                 self.next()
                         self.expect(">")
                     if self.at("("):
                         self.next()
-                        e = ("mcall", e, p[1], self.args())
+                        e = ("mcall", e, p[1], self.args()) if fish is None else ("mcall", e, p[1], self.args(), fish)
                     else:
                         e = ("field", e, p[1])
                 else:
@@ -384,7 +392,13 @@ class Parser:
                 self.next()
                 it = self.expr()
                 return ("for", pat, it, self.block())
-            if name in ("while", "loop"):
+            if name == "loop":
+                self.next()
+                return ("loop", self.block())
+            if name == "break":
+                self.next()
+                return ("break",)
+            if name == "while":
                 raise Untranslatable("loop construct `%s`" % name)
             self.next()
             if self.at("!") and name in KNOWN_MACROS and self.peek(1)[0] == "op" and self.peek(1)[1] == "(":
@@ -408,14 +422,36 @@ class Parser:
                             raise Untranslatable("unterminated generic arguments")
                     continue
                 segs.append(self.expect_id())
+            if self.at("{") and not self.no_struct and segs[-1][0].isupper() and self.struct_ahead():
+                self.next()
+                fields = []
+                while not self.at("}"):
+                    fn = self.expect_id()
+                    if self.at(":"):
+                        self.next()
+                        fields.append((fn, self.expr()))
+                    else:
+                        fields.append((fn, ("var", fn)))
+                    if self.at(","):
+                        self.next()
+                self.expect("}")
+                return ("struct", segs, fields)
             return ("var", name) if len(segs) == 1 else ("path", segs)
         raise Untranslatable("unexpected token %r" % (p,))
+
+    def struct_ahead(self):
+        a, b = self.peek(1), self.peek(2)
+        if a[0] == "op" and a[1] == "}":
+            return True
+        return a[0] == "id" and b[0] == "op" and b[1] in (":", ",", "}")
 
     def if_expr(self):
         self.next()
         if self.at_id("let"):
             raise Untranslatable("if let")
+        self.no_struct += 1
         c = self.expr()
+        self.no_struct -= 1
         thn = self.block()
         els = None
         if self.at_id("else"):
@@ -425,7 +461,9 @@ class Parser:
 
     def match_expr(self):
         self.next()
+        self.no_struct += 1
         scrut = self.expr()
+        self.no_struct -= 1
         self.expect("{")
         arms = []
         while not self.at("}"):
@@ -487,12 +525,19 @@ class Parser:
             return ("expr", e), False
         if self.at("}"):
             return ("expr", e), True
-        if e[0] in ("if", "match", "block", "for"):
+        if e[0] in ("if", "match", "block", "for", "loop"):
             return ("expr", e), False
         raise Untranslatable("expected `;` or `}` after expression, found %r" % (self.peek(),))
 
     def block(self):
         self.expect("{")
+        saved, self.no_struct = self.no_struct, 0
+        try:
+            return self.block_body()
+        finally:
+            self.no_struct = saved
+
+    def block_body(self):
         stmts, tail = [], None
         while not self.at("}"):
             s, is_tail = self.stmt()
